@@ -44,6 +44,9 @@ CHECKS = {
          "every length 0..300 (600 thorough) x 4 content generators, every 2-way and (bounded) 3-way chunking, hasher reuse, "
          "HMAC for every key length 0..200: the padding/carry/key-normalisation logic depends on lengths only, so the shape space is exhausted",
          "trusts Python hashlib/hmac; content limited to four generators", "DESIGN.md §4 C17"),
+ "C18": ("exploration", "exhaustive enumeration of code points / short byte strings / boundary integers / encodings on the real codecs under ASan + bounds sanitizer",
+         "all 1,114,112 code points, all byte strings up to 3 bytes plus class-alphabet strings up to 5 (6) bytes in exactly sized blocks, all 16-bit and power-of-two boundary integers, all base64 encodings of short inputs and arbitrary 4/8-symbol inputs",
+         "longer inputs covered by class alphabets only", "DESIGN.md §4 C18"),
 }
 NOT_YET = "check not built yet in this snapshot (planned, see DESIGN.md §4)"
 
